@@ -24,10 +24,12 @@ CONFIGS = {
     "asm": (REL, True),
     # portable 64-bit words, built with the OTHER compiler the repository's Makefile provides for (g++), at another optimisation level:
     # behaviour that depends on what one compiler happens to make of the source shows as a difference between the back ends
-    "c64": (["-O2", "-DDISABLE_ASM"], False, "g++"),
+    # (a release build: assertions compiled out)
+    "c64": (["-O2", "-DNDEBUG", "-DDISABLE_ASM"], False, "g++"),
     # portable 32-bit words, with the ABI choices of the library's ARM targets that a host build can reproduce: plain char is
     # unsigned there (AAPCS), and the embedded tool-chain flags shorten enums
-    "c32": (REL + ["-DDISABLE_ASM", "-U__SIZEOF_INT128__", "-funsigned-char", "-fshort-enums"], False),
+    # ... and optimises for size (-Os defines __OPTIMIZE_SIZE__, which source code can test)
+    "c32": (["-Os", "-fno-vectorize", "-DDISABLE_ASM", "-U__SIZEOF_INT128__", "-funsigned-char", "-fshort-enums"], False),
     # unoptimised build (debug / coverage builds): nothing is inlined, so every inline function is emitted and resolved by the linker
     "o0": (["-O0", "-DDISABLE_ASM"], False),
     "san-asm": (SAN, True),
